@@ -891,6 +891,10 @@ def _worker_discover(fixtures):
     return out, errors
 
 
+QUICK_SKIP_HANDLES = {("nested_ctor", "n.m"), ("nested_memmap", "n.m"), ("nested_pickle", "n.m"), ("nested_shared", "n"),
+                      ("lazy_hetero", "n"), ("lazy_members_first", "n"), ("td_tc", "tc.n"), ("lazy_lazy", "i0.m1")}
+
+
 def stream_reflection(R, RF, nvar, fixtures):
     tasks = []
     meth_count = {}
@@ -898,6 +902,8 @@ def stream_reflection(R, RF, nvar, fixtures):
     (disc, errors), = _pool(_worker_discover, [fixtures], 1)
     R.broken.extend(errors)
     for (fx, hn, tname, meths, skipped) in disc:
+        if R.quick and (fx, hn) in QUICK_SKIP_HANDLES:
+            continue      # the deepest handle of the fixtures that only differ from `nested` by the way they became locked (thorough runs them)
         meth_count[tname] = len(meths)
         for k, v in skipped.items():
             skipped_tot[tname + ":" + k] = v
@@ -1085,6 +1091,13 @@ def main(R):
         "the model as OGc; the model does not predict which objects die",
         "h5 (PersistentTensorDict) and distributed/process-pool calls are outside the run (listed under reflection.excluded_names)",
     ]
+    R.extra["stated_not_proved"] = {
+        "C05_locked_frozen_full_statement": "false of the unchanged code (D8, exclude(inplace=True)); proved on the complement: C05_locked_frozen; refuted: C05_locked_frozen_refuted_D8",
+        "C05_member_cannot_unlock_full_statement": "false of the unchanged code (D7, memmap_ builds no lock graph); proved for nodes locked through lock_: "
+                                                   "C05_member_cannot_unlock; refuted: C05_member_cannot_unlock_refuted_D7",
+        "model scope": "lazy stacks created without members are outside in_scope (D56 witness C05_hollow_lazy_refuted_D56); "
+                       "tensorclass / TensorDictParams / _SubTensorDict / NonTensorData and calls routed through a lazy stack to its members are covered "
+                       "by the reflection and writes streams (oracle) only, not by the model"}
     R.trusted = ["harness/c05_reflect.py argument synthesis (coverage measured: reflection.* in this file)",
                  "pickle, mmap, shared memory, CPython weakref/gc behaviour"]
     try:
@@ -1115,7 +1128,7 @@ def main(R):
         t1 = time.time()
         if ok:
             try:
-                stream_histories(R, 2000 if R.quick else 12000, 32 if R.quick else 45)
+                stream_histories(R, 1200 if R.quick else 12000, 32 if R.quick else 45)
             except TimeoutError:
                 R.broken.append("history stream: worker pool timed out (machine overloaded?)")
         t2 = time.time()
